@@ -53,7 +53,8 @@ LEVEL_NOTE = ('Every step runs the implementation; the only model is the '
 
 VARIANTS = ('direct', 'range', 'two-sheets', 'name', 'range-blank', 'mirror',
             'twin-coord', 'name-case', 'gap', 'range-za', 'range-name',
-            'absent-ref', 'range-name-mid')
+            'absent-ref', 'range-name-mid', 'range-name-hole',
+            'range-name-quoted')
 # absent-ref: every formula also reads a cell that is not stored, on a sheet
 #   of which the original holds another cell (outside every focus) and the
 #   extract therefore nothing: blank in both.
@@ -67,6 +68,18 @@ RNAME = 'q1_rng'
 # range-name-mid: the same with the second and third cell named, which may be
 #   formulas over later cells: precedents reached only through the members of
 #   a named range.
+
+
+# range-name-hole: the name covers one more cell, below the last one, that the
+#   file does not store and that gets its first value (in the original) before
+#   the extraction;
+# range-name-quoted: the same as range-name on a sheet whose name needs quotes
+#   (the name's own spelling of the area has them, the literal mention on the
+#   sheet itself has not).
+RANGE_NAME_VARIANTS = ('range-name', 'range-name-mid', 'range-name-hole',
+                       'range-name-quoted')
+QSHEET = 'Q1 Data'
+HOLE_VALUE = 1000
 
 
 def named_pair(variant, n):
@@ -113,6 +126,8 @@ def edges_of(code, n):
 def sheet_of(i, variant):
     if variant == 'mirror':
         return 'Sheet2'          # the judged copy; Sheet1 holds its twin
+    if variant == 'range-name-quoted':
+        return QSHEET
     return 'Sheet2' if variant in ('two-sheets', 'twin-coord') and i % 2 \
         else 'Sheet1'
 
@@ -149,7 +164,7 @@ def formula_of(i, deps_i, variant, n):
     if variant == 'range-za' and len(deps_i) >= 2 and \
             deps_i == list(range(deps_i[0], deps_i[-1] + 1)):
         return '=SUM(%s1:%s1)' % (ZA_COLS[deps_i[0]], ZA_COLS[deps_i[-1]])
-    if variant in ('range-name', 'range-name-mid') and \
+    if variant in RANGE_NAME_VARIANTS and \
             set(named_pair(variant, n)) <= set(deps_i):
         rest = ''.join('+B%d*%d' % (j + 1, MULT[j]) for j in deps_i
                        if j not in named_pair(variant, n))
@@ -199,8 +214,12 @@ def build(code, n, variant):
             model = lib.ModelCompiler().read_and_parse_archive(path)
         os.unlink(path)
         return model, deps
-    if variant in ('range-name', 'range-name-mid'):
+    if variant in RANGE_NAME_VARIANTS:
         lo, hi = named_pair(variant, n)
+        title = sheet_of(0, variant)
+        last = hi + 2 if variant == 'range-name-hole' else hi + 1
+        target = '%s!$B$%d:$B$%d' % (
+            "'%s'" % title if ' ' in title else title, lo + 1, last)
         cells = {}
         for i in range(n):
             f = formula_of(i, deps[i], variant, n)
@@ -211,14 +230,15 @@ def build(code, n, variant):
         path = os.path.join(tmpdir(), 'r_%d_%d_%d.xlsx' % (os.getpid(), n,
                                                           code))
         with open(path, 'wb') as fp:
-            fp.write(R.build([('Sheet1', cells)],
-                             {RNAME: 'Sheet1!$B$%d:$B$%d' % (lo + 1,
-                                                             hi + 1)}))
+            fp.write(R.build([(title, cells)], {RNAME: target}))
         import warnings
         with warnings.catch_warnings():
             warnings.simplefilter('ignore')
             model = lib.ModelCompiler().read_and_parse_archive(path)
         os.unlink(path)
+        if variant == 'range-name-hole':
+            # the cell the file does not store gets its first value
+            model.set_cell_value('%s!B%d' % (title, last), HOLE_VALUE)
         return model, deps
     if variant in ('name', 'name-case'):
         cells = {}
